@@ -14,7 +14,7 @@ RULE = ("requirement syntax trees drawn from each ecosystem's range grammar (npm
         ".* forms without epoch/local; Maven: unions of bracketed ranges, hard and soft versions), numbers small so that bounds "
         "collide, printed with random legal spelling/white space; candidates = every bound, its predecessor/successor in each "
         "component, prerelease neighbours (npm, Cargo), and random versions (PyPI: final releases with a non-zero segment; "
-        "Maven: dotted numbers). Go answers MatchVersion for every (requirement, candidate); the extracted reference "
+        "Maven: dotted numbers); a quarter of the npm/Cargo candidates is asked again with SemVer build metadata (identifiers with - and .). Go answers MatchVersion, Constraint.Match(version string) and, for npm, resolve.MatchRequirement for every (requirement, candidate), and the three must agree; the extracted reference "
         "specification (Spec/*.v, validated against the real tool when present) answers on the syntax tree; the extracted "
         "model answers from the same parse tables. A case is non-trivial when the requirement is accepted and at least one "
         "candidate satisfies it and one does not")
